@@ -7,10 +7,11 @@ the model (vm_compute); the observable state (value, queue with job ids and weig
 order of entry into the bodies) is compared after every Settle.  Oracle: capacity / FIFO / no-lost-wake-up judged only from what the jobs
 experience (who is in a body, who is blocked), never from the semaphore's fields.
 """
-from harness.core import Corr, Disagreement, Failure, coq_eval, zlit, listlit
+from harness.core import Corr, Disagreement, Failure, TieBroken, coq_eval, zlit, listlit
+from harness.impl import c16_usesite
 
 ID = 'C16'
-SRC = 'batch/batch/semaphore.py'
+SRC = ['batch/batch/semaphore.py', 'batch/batch/worker/worker.py']
 COQ_PROPS = 'theories/SemFifo/Props_C16.v'
 READY = True
 META = dict(
@@ -345,7 +346,309 @@ def impl_results(ctx, schedules):
     return ctx.run_impl('c16_fifo.py', {'schedules': schedules}, timeout=900)['results']
 
 
+# ================================================================================================
+# the worker's USE of the semaphore (worker.py), with task cancellation
+# ================================================================================================
+
+def generate(ctx):
+    """T: every occurrence of `cpu_sem` in worker.py classified (fail closed) -> reservation pattern of every use site;
+    the context manager of semaphore.py must be acquire-in-__aenter__ / release-in-__aexit__."""
+    try:
+        c16_usesite.check_context_manager(ctx.read_repo(c16_usesite.SEM_PY))
+        info = c16_usesite.analyse(ctx.read_repo(c16_usesite.WORKER_PY))
+    except c16_usesite.Unrecognised as e:
+        raise TieBroken('py-translator', str(e))
+    items = ';\n  '.join(f'{e["pattern"]} (* {e["cls"]}.run: async with {e["expr"]}' + (f' -> helper {e["via"]}' if e["via"] else '') + ' *)'
+                         for e in info['entries'])
+    ctx.write_generated('Gen.v', f"""(* GENERATED by harness/props/C16.py from {c16_usesite.WORKER_PY} and {c16_usesite.SEM_PY} - do not edit *)
+From Coq Require Import List.
+Import ListNotations.
+From HailV Require Import SemFifo.Use.
+
+(* reservation pattern of every job class whose run() reserves cores on the worker's cpu_sem *)
+Definition use_sites : list pattern := [
+  {items}
+].
+""")
+    ctx._c16_use = info
+
+
+class _URef:
+    """mirror of SemFifo.Use (AcquireThenTry) - ONLY to enumerate schedules whose Finish/Cancel hit interesting tasks"""
+
+    def __init__(self, cap):
+        self.v, self.q, self.fresh, self.wait, self.woken, self.body, self.ready, self.throw, self.n = cap, [], {}, {}, {}, {}, [], set(), 0
+
+    def copy(self):
+        r = _URef(0)
+        r.v, r.q, r.n = self.v, list(self.q), self.n
+        r.fresh, r.wait, r.woken, r.body = dict(self.fresh), dict(self.wait), dict(self.woken), dict(self.body)
+        r.ready, r.throw = list(self.ready), set(self.throw)
+        return r
+
+    def _release(self, w):
+        self.v += w
+        while self.q and self.v >= self.q[0][1]:
+            j, wj = self.q.pop(0)
+            self.v -= wj
+            if j in self.wait:
+                self.woken[j] = self.wait.pop(j)
+                if j not in self.throw:
+                    self.ready.append(j)
+
+    def _tick(self):
+        i = self.ready.pop(0)
+        thr = i in self.throw
+        self.throw.discard(i)
+        if i in self.fresh:
+            w = self.fresh.pop(i)
+            if not thr:
+                if not self.q and self.v >= w:
+                    self.v -= w
+                    self.body[i] = w
+                else:
+                    self.q.append((i, w))
+                    self.wait[i] = w
+        elif i in self.woken:
+            w = self.woken.pop(i)
+            if not thr:
+                self.body[i] = w
+        elif i in self.wait:
+            if thr:
+                self.wait.pop(i)
+        elif i in self.body:
+            self._release(self.body.pop(i))
+
+    def live(self):
+        return sorted(set(self.fresh) | set(self.wait) | set(self.woken) | set(self.body))
+
+    def do(self, a):
+        if a[0] == 'a':
+            self.fresh[self.n] = a[1]
+            self.ready.append(self.n)
+            self.n += 1
+        elif a[0] == 'f':
+            if a[1] in self.body and a[1] not in self.ready:
+                self.ready.append(a[1])
+        elif a[0] == 'c':
+            i = a[1]
+            if i not in self.throw and i in self.live():
+                self.throw.add(i)
+                if i not in self.ready:
+                    self.ready.append(i)
+        else:
+            while self.ready:
+                self._tick()
+
+
+def use_enum(cap, weights, max_jobs, length, settled):
+    """settled: every action is followed by a settle; otherwise settle is an explicit action (cancellations and finishes pile up)"""
+    out = []
+
+    def rec(ref, acts, left, dirty):
+        if left == 0:
+            out.append(acts + ([] if settled else [['s']]))
+            return
+        opts = [['a', w] for w in weights] if ref.n < max_jobs else []
+        opts += [['f', i] for i in sorted(ref.body) if i not in ref.ready]
+        opts += [['c', i] for i in ref.live() if i not in ref.throw]
+        if dirty and not settled:
+            opts.append(['s'])
+        if not opts:
+            out.append(acts + ([] if settled else [['s']]))
+            return
+        for a in opts:
+            r2 = ref.copy()
+            r2.do(a)
+            if settled:
+                r2.do(['s'])
+                rec(r2, acts + [a, ['s']], left - 1, False)
+            else:
+                rec(r2, acts + [a], left - 1, a[0] != 's')
+    rec(_URef(cap), [], length, False)
+    return out
+
+
+def use_random(rng, cap, n):
+    ref, acts = _URef(cap), []
+    ws = [w for w in ([250, 500, 1000, 2000, 4000, 8000, 16000] if cap >= 1000 else [1, 1, 2, 3, cap, max(1, cap // 2)]) if w <= cap] or [1]
+    for _ in range(n):
+        x = rng.random()
+        live = ref.live()
+        if x < 0.33:
+            a = ['a', rng.choice(ws)]
+        elif x < 0.50 and ref.body:
+            a = ['f', rng.choice(sorted(ref.body))] + (['raise'] if rng.random() < 0.3 else [])
+        elif x < 0.68 and live:
+            # cancel: prefer waiters that are NOT at the head, then anybody (incl. running, fresh, already cancelled)
+            behind = [j for j, _ in ref.q[1:] if j in ref.wait]
+            a = ['c', rng.choice(behind) if behind and rng.random() < 0.5 else rng.choice(live)]
+        elif x < 0.72:
+            a = rng.choice([['c', rng.randint(0, ref.n + 1)], ['f', rng.randint(0, ref.n + 1)]])      # maybe dead / unknown: ignored on both sides
+        else:
+            a = ['s']
+        ref.do(a)
+        acts.append(a)
+    acts.append(['s'])
+    return acts
+
+
+def use_schedules(ctx):
+    """[(class, {'cap', 'site', 'acts'})]"""
+    hand = [
+        # the waiter behind the head is cancelled, then a holder finishes (quiet and batched variants)
+        (1, [['a', 1], ['a', 1], ['a', 1], ['s'], ['c', 2], ['s'], ['f', 0], ['s'], ['f', 1], ['s']]),
+        (4000, [['a', 2000], ['a', 2000], ['s'], ['a', 3000], ['a', 2000], ['s'], ['c', 3], ['s'], ['f', 1], ['s'], ['f', 0], ['s'], ['f', 2], ['s']]),
+        (4000, [['a', 2000], ['a', 2000], ['a', 3000], ['a', 2000], ['s'], ['c', 3], ['f', 1], ['s'], ['f', 0], ['s']]),
+        # cancel at the head; cancel after the grant but before the task resumes; cancel a running job; cancel before the first step; cancel twice
+        (2, [['a', 2], ['a', 1], ['a', 1], ['s'], ['c', 1], ['s'], ['f', 0], ['s'], ['f', 2], ['s']]),
+        (2, [['a', 2], ['a', 2], ['s'], ['f', 0], ['c', 1], ['s'], ['a', 1], ['s']]),
+        (2, [['a', 1], ['a', 1], ['a', 2], ['s'], ['c', 0], ['s'], ['c', 1], ['c', 1], ['s'], ['f', 2], ['s']]),
+        (2, [['a', 2], ['c', 0], ['a', 2], ['s'], ['c', 0], ['f', 1, 'raise'], ['s'], ['a', 1], ['s']]),
+    ]
+    out = []
+    for site in (0, 1):
+        out += [('use-hand', {'cap': c, 'site': site, 'acts': a}) for c, a in hand]
+        out += [('use-settled', {'cap': 2, 'site': site, 'acts': a}) for a in use_enum(2, [1, 2], 3, ctx.scale(5, 6), True)]
+        out += [('use-batched', {'cap': 1, 'site': site, 'acts': a}) for a in use_enum(1, [1], 3, ctx.scale(6, 7), False)]
+    for k in range(ctx.scale(400, 5000)):
+        cap = ctx.rng.choice([1, 2, 2, 3, 4, 8, 4000, 16000])
+        out.append(('use-random', {'cap': cap, 'site': k % 2, 'acts': use_random(ctx.rng, cap, ctx.rng.choice([10, 20, 40, 80]))}))
+    return out
+
+
+def use_encode(acts):
+    z = 0
+    for k, a in enumerate(acts):
+        d = 0 if a[0] == 's' else {'a': 1, 'f': 2, 'c': 3}[a[0]] + 4 * a[1]
+        assert 0 <= d < 2 ** 20 and (a[0] == 's' or a[1] >= 0)
+        z |= d << (20 * k)
+    return z
+
+
+def use_fingerprint(trace):
+    h, seen = 7, 0
+    for v, q, body, elog, nready in trace:
+        xs = [v, len(q)]
+        for i, w in q:
+            xs += [i, w]
+        xs += [len(body)] + sorted(body) + [len(elog)] + list(elog[seen:]) + [nready]
+        seen = len(elog)
+        for x in xs:
+            h = (h * 131 + x + 7) & _P
+    return h
+
+
+USE_HEADER = 'From HailV Require Import Common.Prelude SemFifo.Model SemFifo.Use.\nOpen Scope Z_scope.'
+
+
+def use_coq_actions(acts):
+    return listlit(['USettle' if a[0] == 's' else (f'Spawn {zlit(a[1])}' if a[0] == 'a' else f'{"Finish" if a[0] == "f" else "Cancel"} {a[1]}%nat')
+                    for a in acts])
+
+
+def use_model_traces(ctx, schedules, patterns):
+    exprs = [f'utrace {patterns[s["site"]]} (uinit {zlit(s["cap"])}) {use_coq_actions(s["acts"])}' for s in schedules]
+    vals = coq_eval(ctx, USE_HEADER, exprs, shard=100, label='usetr')
+    return [[[v, [list(e) for e in q], list(h), list(e), r] for (v, q, h, e, r) in tr] for tr in vals]
+
+
+def use_model_fingerprints(ctx, schedules, patterns, n_sh=8):
+    exprs = [f'ufingerprint {patterns[s["site"]]} {zlit(s["cap"])} (udecode {len(s["acts"])} {hex(use_encode(s["acts"]))})' for s in schedules]
+    order = sorted(range(len(exprs)), key=lambda k: -len(schedules[k]['acts']))
+    perm = [k for r in range(n_sh) for k in order[r::n_sh]]
+    vals = coq_eval(ctx, USE_HEADER, [exprs[k] for k in perm], shard=max(1, (len(exprs) + n_sh - 1) // n_sh), label='usefp')
+    out = [None] * len(exprs)
+    for k, v in zip(perm, vals):
+        out[k] = v
+    return out
+
+
+def use_impl(ctx, schedules):
+    return ctx.run_impl('c16_use.py', {'schedules': schedules}, timeout=900)
+
+
+def use_correspond(ctx):
+    info = getattr(ctx, '_c16_use', None)
+    if info is None:
+        raise TieBroken('SemFifo.utrace~worker.py reservation', 'the use sites of cpu_sem were not recognised (see translator)')
+    patterns = [e['pattern'] for e in info['entries']]
+    tagged = [(t, dict(s, site=s['site'] % len(patterns))) for t, s in use_schedules(ctx)]
+    schedules = [s for _, s in tagged]
+    out = use_impl(ctx, schedules)
+    impl = out['results']
+    ctx._c16_use_cache = (tagged, impl)
+    if out['sites'] != [e['cls'] for e in info['entries']]:
+        raise RuntimeError(f'C16: driver and translator disagree about the use sites: {out["sites"]} / {info["entries"]}')
+    fps = use_model_fingerprints(ctx, schedules, patterns)
+    differing = [k for k, (fp, r) in enumerate(zip(fps, impl)) if fp != use_fingerprint(r['trace'])]
+    differing.sort(key=lambda k: len(schedules[k]['acts']))
+    full = dict(zip(differing[:20], use_model_traces(ctx, [schedules[k] for k in differing[:20]], patterns)))
+    dis, hist, nontrivial, n_obs, n_cancel = [], {}, set(), 0, 0
+    for (tag, s), r in zip(tagged, impl):
+        hist[tag] = hist.get(tag, 0) + 1
+        n_obs += len(r['trace'])
+        if any(a[0] == 'c' for a in s['acts']) and any(o[1] for o in r['trace']):
+            nontrivial.add(str(s))
+            n_cancel += 1
+    name = 'SemFifo.utrace~worker.py reservation'
+    for k in differing:
+        s, r = schedules[k], impl[k]
+        if k in full:
+            m = full[k]
+            j = next((j for j, (x, y) in enumerate(zip(m, r['trace'])) if x != y), min(len(m), len(r['trace'])))
+            dis.append(Disagreement(name, {'schedule': s, 'site': info['entries'][s['site']], 'first_diff_at_settle': j},
+                                    m[j] if j < len(m) else None, r['trace'][j] if j < len(r['trace']) else None))
+        else:
+            dis.append(Disagreement(name, {'schedule': s}, 'fingerprint differs', r['trace'][-1] if r['trace'] else None))
+    return Corr(evaluations=len(schedules), distinct_nontrivial=len(nontrivial),
+                rule='one evaluation = one Spawn/Finish/Cancel/Settle schedule run on the REAL reservation code of worker.py (run() of '
+                     + ', '.join(e['cls'] for e in info['entries']) + ' cut down to `async with <reservation>: <harness body>` by AST, helpers verbatim, real '
+                     'FIFOWeightedSemaphore, real asyncio tasks and task.cancel() on the deterministic loop) and on SemFifo.Use (vm_compute, pattern of the site as '
+                     'generated); value, deque (ids+weights, entries of dead tasks included), running jobs, order of entry compared after every settle; '
+                     f'non-trivial = distinct schedule with a cancellation in which some job was queued; {n_obs} observations; '
+                     'exhaustive: settled cap2/w12/3 jobs, batched cap1/w1/3 jobs, on every use site',
+                samples=[{'schedule': s, 'trace': r['trace']} for (_, s), r in list(zip(tagged, impl))[:1] + list(zip(tagged, impl))[-1:]],
+                disagreements=dis, histograms={'use_schedule_class': hist, 'use_sites': [f'{e["cls"]}: {e["pattern"]} ({e["expr"]})' for e in info['entries']]},
+                exhaustive=True, names=[name])
+
+
+USE_WHAT = {
+    'capacity': 'worker: the jobs inside `async with <cpu reservation>` bodies weigh more than the capacity',
+    'fifo': 'worker: jobs that had to wait entered their bodies out of arrival order',
+    'lost-wakeup': 'worker: (no cancellation in the schedule) the oldest blocked job fits into the free capacity but is still blocked',
+    'job-raised': 'worker: the reservation code raised',
+}
+
+
+def use_failures(tagged, impl):
+    fails = []
+    for (tag, s), r in zip(tagged, impl):
+        for v in r['viol']:
+            fails.append(Failure('use:' + v['kind'], USE_WHAT.get(v['kind'], v['kind']), dict(s, level='worker'), None, v))
+    fails.sort(key=lambda f: (f.key, len(f.case['acts'])))
+    return fails
+
+
+def use_oracle(ctx, budget):
+    cache = getattr(ctx, '_c16_use_cache', None)
+    if cache is None or budget > 1:
+        tagged = use_schedules(ctx)
+        if budget > 1:
+            for k in range(ctx.scale(1000, 5000) * budget):
+                cap = ctx.rng.choice([1, 2, 3, 4])
+                tagged.append(('use-random', {'cap': cap, 'site': k % 2, 'acts': use_random(ctx.rng, cap, ctx.rng.choice([8, 15, 30]))}))
+        impl = use_impl(ctx, [s for _, s in tagged])['results']
+    else:
+        tagged, impl = cache
+    return use_failures(tagged, impl), len(tagged)
+
+
 def correspond(ctx):
+    return sem_correspond(ctx).merge(use_correspond(ctx))
+
+
+def sem_correspond(ctx):
     tagged = all_schedules(ctx)
     schedules = [s for _, s in tagged]
     impl = impl_results(ctx, schedules)
@@ -417,13 +720,28 @@ def oracle(ctx, budget):
     else:
         tagged, impl = cache
     fails = _failures(tagged, impl)
-    return fails, {'evaluations': len(tagged), 'distinct_nontrivial': len({str(s) for _, s in tagged}),
+    ufails, n_use = use_oracle(ctx, budget)
+    fails = fails + ufails
+    return fails, {'evaluations': len(tagged) + n_use, 'distinct_nontrivial': len({str(s) for _, s in tagged}),
                    'rule': 'oracle: capacity (sum of weights of jobs inside bodies <= cap, checked at every entry and settle), FIFO (after settle the admitted jobs are exactly the first k arrivals; '
-                           'jobs that waited were admitted in arrival order), no lost wake-up (after settle the oldest blocked job does not fit) — judged from the jobs only',
+                           'jobs that waited were admitted in arrival order), no lost wake-up (after settle the oldest blocked job does not fit) — judged from the jobs only; '
+                           'worker level (real reservation code of worker.py, schedules with task cancellation anywhere): running weight <= capacity at every body entry and settle, '
+                           'waiting jobs admitted in arrival order, no lost wake-up in schedules without cancellation',
                    'samples': [{'schedule': tagged[0][1], 'violations': impl[0]['viol']}]}
 
 
 def replay(ctx, doc):
     s = doc['case']['schedule'] if isinstance(doc.get('case'), dict) and 'schedule' in doc['case'] else doc['case']
+    if isinstance(s, dict) and ('site' in s or s.get('level') == 'worker'):
+        s = {k: v for k, v in s.items() if k != 'level'}
+        out = use_impl(ctx, [s])
+        r = out['results'][0]
+        res = {'schedule': s, 'use_sites': out['entries'], 'impl_trace': r['trace'], 'impl_property_violations': r['viol']}
+        try:
+            pats = [e['pattern'] for e in out['entries']]
+            res['model_trace'] = use_model_traces(ctx, [dict(s, site=(s.get('site', 0) if isinstance(s.get('site', 0), int) else 0) % len(pats))], pats)[0]
+        except Exception as e:  # noqa
+            res['model_trace'] = f'unavailable: {type(e).__name__}'
+        return res
     r = impl_results(ctx, [s])[0]
     return {'schedule': s, 'impl_trace': r['trace'], 'impl_property_violations': r['viol'], 'model_trace': model_traces(ctx, [s])[0]}
